@@ -154,7 +154,11 @@ pub fn interpret(case: &Case, run: Option<&mut Run>) -> Result<(), String> {
         (_, _, true) => Box::new(Lexer::<ManualVec>::new_partial(&owned_vec)),
     };
     for _ in 0..case.nexts {
-        lex.next_();
+        // the hand-written Logos impls of the Deref sources advance with in-range bumps: a panic here is a bump that
+        // rejected a valid position
+        if catch_unwind(AssertUnwindSafe(|| lex.next_())).is_err() {
+            return Err(format!("next() panicked on a source of {} bytes (an in-range bump to a valid position was rejected)", src.len()));
+        }
     }
     let len = src.len();
     let boundary = |p: usize| p <= len && (!is_str || text.is_char_boundary(p));
@@ -201,7 +205,9 @@ pub fn interpret(case: &Case, run: Option<&mut Run>) -> Result<(), String> {
         }
         // the lexer stays usable
         if r.is_err() {
-            lex.next_();
+            if catch_unwind(AssertUnwindSafe(|| lex.next_())).is_err() {
+                return Err(format!("after a caught bump panic next() panicked (span {:?}, source of {len} bytes)", lex.span_()));
+            }
             let s2 = lex.span_();
             if !(s2.start <= s2.end && s2.end <= len) {
                 return Err(format!("after a caught bump panic next() leaves span {s2:?}"));
